@@ -40,6 +40,9 @@ type HandSpec struct {
 	Lie string
 	// PackedBlockSizes: BlockSizes written as one packed run (legal protobuf)
 	PackedBlockSizes bool
+	// RootData: "" | "empty" (the root's UnixFS message has a Data field of
+	// length 0 although it has links: present-but-empty, legal)
+	RootData string
 }
 
 func l(n int, seed byte) HandNode {
@@ -90,6 +93,11 @@ func HandFamily() []HandSpec {
 				for _, fs := range []bool{true, false} {
 					out = append(out, HandSpec{Label: fmt.Sprintf("hand %s leaves=%s blocksizes=%s filesize=%v", n, lk, bs, fs),
 						Root: shapes[n], LeafKind: lk, BlockSizes: bs, FileSize: fs, Tsize: true})
+				}
+				// the root carries a present-but-empty Data field next to its links
+				if (lk == "raw" || lk == "pbfile") && bs == "all" {
+					out = append(out, HandSpec{Label: fmt.Sprintf("hand %s leaves=%s blocksizes=all filesize=true rootdata=empty", n, lk),
+						Root: shapes[n], LeafKind: lk, BlockSizes: bs, FileSize: true, Tsize: true, RootData: "empty"})
 				}
 				// the same with the block sizes in one packed run
 				if (lk == "pbfile" || lk == "raw") && bs == "all" {
@@ -235,6 +243,9 @@ func (h HandSpec) Build(s *store.Store) (cid.Cid, []byte) {
 			d.Blocksizes = sizes[:len(sizes)-1]
 		case "long":
 			d.Blocksizes = append(append([]uint64{}, sizes...), 7)
+		}
+		if h.RootData == "empty" && depth == 0 {
+			d.Data = []byte{}
 		}
 		if h.FileSize {
 			sz := uint64(len(content))
